@@ -25,7 +25,7 @@ type Profile struct {
 }
 
 func weighted(w map[string]int) []string {
-	order := []string{"resolve", "reserr", "state", "pick", "done", "adv", "failnew", "cancel", "allready", "bindflow", "decall", "readyrepl", "staledown", "emptypool", "saturate", "refreshcycle", "stalede", "affswap", "fbflow", "bindacross", "growmax", "multibind", "fillwm", "affburst", "flaprefresh", "rrempty", "rrstraddle", "unbindrace", "resurrect", "rrwrap", "rrdead", "fbtwice", "rrresurrect", "rrlongwait", "hashpair", "reserrdown"}
+	order := []string{"resolve", "reserr", "state", "pick", "done", "adv", "failnew", "cancel", "allready", "bindflow", "decall", "readyrepl", "staledown", "emptypool", "saturate", "refreshcycle", "stalede", "affswap", "fbflow", "bindacross", "growmax", "multibind", "fillwm", "affburst", "flaprefresh", "rrempty", "rrstraddle", "unbindrace", "resurrect", "rrwrap", "rrdead", "fbtwice", "rrresurrect", "rrlongwait", "hashpair", "reserrdown", "resurrectgrow", "refreshresp", "rrdupspin"}
 	var out []string
 	for _, k := range order {
 		for i := 0; i < w[k]; i++ {
@@ -99,7 +99,8 @@ func genStep(p *Profile, cfg *Config) *rapid.Generator[[]Op] {
 			}
 			return op
 		}
-		switch rapid.SampledFrom(kinds).Draw(t, "kind") {
+		name := rapid.SampledFrom(kinds).Draw(t, "kind")
+		switch name {
 		case "resolve":
 			op := Op{K: "resolve", Addrs: rapid.SampledFrom([]int{0, 0, 1, 2, 3, 3, 4, 5, 6, 7, 8, 9, 10}).Draw(t, "addrs"), Cfg: 1, SC: rapid.IntRange(0, 3).Draw(t, "sc") == 0}
 			if p.CfgOps {
@@ -476,6 +477,56 @@ func genStep(p *Profile, cfg *Config) *rapid.Generator[[]Op] {
 			}
 			ops = append(ops, Op{K: "state", Idx: 0, St: 2}, Op{K: "pick", M: 0})
 			return ops
+		case "resurrectgrow", "refreshresp", "rrdupspin":
+			// a refresh is started by deadline calls on a plain channel ...
+			calls := cfg.UdCalls
+			if calls < 1 {
+				calls = 1
+			}
+			if calls > 5 {
+				calls = 5
+			}
+			var ops []Op
+			for i := 0; i < 6; i++ {
+				ops = append(ops, Op{K: "state", Idx: i, St: 2})
+			}
+			startRefresh := func() {
+				for j := 0; j < calls; j++ {
+					ops = append(ops, Op{K: "pick", M: 0, DlMs: 1}, Op{K: "adv", Mode: 1, Idx: -1, Eps: 1}, Op{K: "done", Idx: -1, Out: 2})
+				}
+			}
+			startRefresh()
+			switch name {
+			case "refreshresp":
+				// ... a response arrives on the old connection while the replacement is pending, later more deadline calls
+				// come: the refresh in flight is still the one and only
+				ops = append(ops, Op{K: "pick", M: 0}, Op{K: "done", Idx: -1, Out: 0})
+				startRefresh()
+				startRefresh()
+				ops = append(ops, Op{K: "state", Sel: 1, Idx: 0, St: 2})
+			default:
+				// ... the old connection is shut down during the refresh, the replacement becomes READY (the channel is back)
+				ops = append(ops, Op{K: "state", Sel: 8, Idx: 0, St: 4}, Op{K: "state", Sel: 1, Idx: 0, St: 2})
+				if name == "resurrectgrow" {
+					// one channel reconnects, the others are saturated: a saturated call has to wait for it
+					ops = append(ops, Op{K: "state", Sel: 0, Idx: rapid.IntRange(0, 5).Draw(t, "rgwhich"), St: rapid.SampledFrom([]int{1, 0}).Draw(t, "rgst")})
+					for i := 0; i < 8; i++ {
+						ops = append(ops, Op{K: "pick", M: 0})
+					}
+				} else {
+					// the channel that came back is refreshed once more; then everything shuts down and BINDs arrive on old pickers
+					startRefresh()
+					ops = append(ops, Op{K: "state", Sel: 1, Idx: 0, St: 2})
+					for i := 0; i < 7; i++ {
+						ops = append(ops, Op{K: "state", Sel: 0, Idx: i, St: 4})
+					}
+					for i := 0; i < 3; i++ {
+						ops = append(ops, Op{K: "pick", M: 1, Key: i, Pk: rapid.IntRange(1, 8).Draw(t, "rdpk"), DlMs: 50})
+					}
+					ops = append(ops, Op{K: "state", Sel: 3, Idx: 0, St: 2})
+				}
+			}
+			return ops
 		case "hashpair":
 			// two keys that collide under a common string hash: both bound (the second after some load, so mostly elsewhere),
 			// one unbound again, then the other one is used: it is still bound to its channel
@@ -700,17 +751,17 @@ var Profiles = map[string]*Profile{
 	"load": {Name: "load", Min: [2]int{1, 5}, Max: [2]int{1, 5}, WM: []int{1, 2, 3, 4, 5}, Fallback: 20, UdMs: []int64{0, 7, 100}, UdCalls: []int{1, 2}, RR: 15, Strict: 50,
 		W: map[string]int{"resolve": 1, "state": 8, "pick": 25, "done": 22, "adv": 2, "allready": 3, "bindflow": 3, "decall": 6, "readyrepl": 6, "staledown": 3, "saturate": 3, "refreshcycle": 3, "stalede": 2, "fbflow": 3, "flaprefresh": 3, "affburst": 1, "multibind": 3}, Methods: []int{0, 0, 0, 0, 2, 2, 9, 1, 3, 28}},
 	"size": {Name: "size", Wild: true, WM: []int{1}, Fallback: 10, UdMs: []int64{0, 7}, UdCalls: []int{1}, Strict: 50, Shutdown: true,
-		W: map[string]int{"resolve": 3, "state": 10, "pick": 20, "done": 6, "adv": 1, "failnew": 2, "allready": 5, "decall": 3, "readyrepl": 3, "emptypool": 1, "saturate": 6, "growmax": 2, "fillwm": 2, "flaprefresh": 3}, Methods: []int{0, 0, 0, 2, 9}, NoFirst: 5},
+		W: map[string]int{"resolve": 3, "state": 10, "pick": 20, "done": 6, "adv": 1, "failnew": 2, "allready": 5, "decall": 3, "readyrepl": 3, "emptypool": 1, "saturate": 6, "growmax": 2, "fillwm": 2, "flaprefresh": 3, "resurrectgrow": 4, "refreshresp": 3}, Methods: []int{0, 0, 0, 2, 9}, NoFirst: 5},
 	"states": {Name: "states", Min: [2]int{1, 4}, Max: [2]int{1, 5}, WM: []int{1, 2, 100}, Fallback: 30, UdMs: []int64{7, 100}, UdCalls: []int{1}, Strict: 50, Shutdown: true, Hostile: true,
 		W: map[string]int{"resolve": 1, "state": 30, "pick": 8, "done": 4, "adv": 1, "allready": 2, "decall": 8, "readyrepl": 8, "staledown": 4, "refreshcycle": 3, "flaprefresh": 4}, Methods: allMethods},
 	"hostile": {Name: "hostile", Wild: true, WM: []int{1}, Fallback: 50, UdMs: []int64{0, 1, 7}, UdCalls: []int{0, 1}, RR: 25, Strict: 50, Shutdown: true, Hostile: true, CfgOps: true, NoFirst: 20,
-		W: map[string]int{"resolve": 4, "reserr": 2, "state": 12, "pick": 20, "done": 10, "adv": 2, "failnew": 3, "cancel": 2, "allready": 3, "bindflow": 4, "decall": 6, "readyrepl": 5, "staledown": 3, "emptypool": 1, "saturate": 2, "affswap": 3, "fbflow": 3, "refreshcycle": 2, "bindacross": 2, "multibind": 2, "rrempty": 3, "rrwrap": 2}, Methods: hostileMethods},
+		W: map[string]int{"resolve": 4, "reserr": 2, "state": 12, "pick": 20, "done": 10, "adv": 2, "failnew": 3, "cancel": 2, "allready": 3, "bindflow": 4, "decall": 6, "readyrepl": 5, "staledown": 3, "emptypool": 1, "saturate": 2, "affswap": 3, "fbflow": 3, "refreshcycle": 2, "bindacross": 2, "multibind": 2, "rrempty": 3, "rrwrap": 2, "rrdupspin": 3}, Methods: hostileMethods},
 	"detector": {Name: "detector", Min: [2]int{1, 3}, Max: [2]int{1, 3}, WM: []int{100, 100, 2}, UdMs: []int64{0, 1, 7, 100, 60000, 1 << 31, 1<<32 - 1}, UdCalls: []int{0, 1, 1, 2, 2, 3, 4, 1 << 31, 1<<32 - 1}, Strict: 50, Shutdown: true, RR: 20,
 		W: map[string]int{"resolve": 1, "state": 5, "pick": 8, "done": 8, "adv": 4, "failnew": 3, "allready": 2, "decall": 24, "readyrepl": 10, "refreshcycle": 10, "stalede": 8, "rrstraddle": 4}, Methods: []int{0, 0, 2, 1}},
 	"fallback": {Name: "fallback", Min: [2]int{2, 4}, Max: [2]int{2, 4}, WM: []int{1, 2, 3}, Fallback: 100, UdMs: []int64{0, 7, 100}, UdCalls: []int{1}, Strict: 50,
 		W: map[string]int{"resolve": 1, "state": 8, "pick": 20, "done": 6, "adv": 1, "allready": 3, "bindflow": 10, "decall": 5, "readyrepl": 6, "staledown": 6, "saturate": 2, "fbflow": 16, "affswap": 2, "bindacross": 1, "resurrect": 4, "fbtwice": 6}, Methods: []int{0, 2, 2, 2, 2, 5, 3, 1}},
 	"rr": {Name: "rr", Min: [2]int{1, 6}, Max: [2]int{1, 6}, WM: []int{1, 2, 100}, Fallback: 20, UdMs: []int64{0, 7, 100}, UdCalls: []int{1}, RR: 100, Strict: 50, Shutdown: true,
-		W: map[string]int{"rrwrap": 3, "rrdead": 4, "rrresurrect": 4, "rrlongwait": 3, "emptypool": 1, "resolve": 1, "state": 12, "pick": 30, "done": 8, "adv": 4, "cancel": 4, "allready": 3, "decall": 3, "readyrepl": 4, "staledown": 5, "saturate": 1}, Methods: []int{1, 1, 1, 1, 4, 0, 2}},
+		W: map[string]int{"rrwrap": 3, "rrdead": 4, "rrresurrect": 4, "rrlongwait": 3, "rrdupspin": 2, "emptypool": 1, "resolve": 1, "state": 12, "pick": 30, "done": 8, "adv": 4, "cancel": 4, "allready": 3, "decall": 3, "readyrepl": 4, "staledown": 5, "saturate": 1}, Methods: []int{1, 1, 1, 1, 4, 0, 2}},
 	"addresses": {Name: "addresses", Min: [2]int{1, 3}, Max: [2]int{1, 4}, WM: []int{1, 2}, UdMs: []int64{7, 100}, UdCalls: []int{1}, Strict: 30, Shutdown: true,
 		W: map[string]int{"resolve": 12, "reserr": 4, "state": 6, "pick": 10, "done": 5, "adv": 1, "allready": 3, "decall": 12, "readyrepl": 8, "saturate": 5, "failnew": 1, "refreshcycle": 4, "reserrdown": 4}, Methods: []int{0, 0, 2}},
 	"cfg": {Name: "cfg", Wild: true, WM: []int{1}, Fallback: 30, UdMs: []int64{0, 7}, UdCalls: []int{0, 1}, RR: 20, Strict: 30, CfgOps: true, NoFirst: 30,
